@@ -78,7 +78,7 @@ func runC12(r *hx.Result, cfg Config) {
 	r.Rule = "in-package: (pattern, name) pairs from a 16-symbol alphabet incl. * ? [ ] \\ - ^ 0x00 0xff and a 2-byte rune, half of the names derived from the pattern so that they match; non-trivial = distinct pair on which Match returned true with a pattern containing a metacharacter or an escape. black-box: KEYS/SCAN/SEARCH/PDEL/HOOKS with MATCH patterns against client-side filtering of the unfiltered listing; non-trivial = distinct (dataset, query) whose result is a non-empty strict subset."
 	r.Assumptions = []string{"string order of the model is Go's byte-wise string order", "black-box listing without MATCH is the ground truth for filtering"}
 	rng := rand.New(rand.NewSource(cfg.Seed))
-	drv, err := model.Start()
+	drv, err := model.Start("glob")
 	if err != nil {
 		panic(err)
 	}
